@@ -142,6 +142,7 @@ type cmp struct {
 	// counters of what was actually compared
 	Nodes, Leaves, Lookups int
 	Attrs, IfFs, Held      int
+	CaseDrops              int
 	subOwner               string         // while walking a submodule's own tree: the module it belongs to
 	Special                map[string]int // leaves whose type chain ends in an enumeration, leafref, decimal64, union
 }
@@ -578,6 +579,30 @@ func (c *cmp) findChecks(rng *rand.Rand, res *schema.Resolver, pairs int) {
 							under = t.Kind
 						}
 						c.out = append(c.out, Disc{Class: "find-nonexistent", Detail: fmt.Sprintf("Find(%s) from %s returned %s", bogus, a.Path(), got.Path()), Facts: map[string]any{"bogus_step_under": under}})
+					}
+					// the path with an explicit case step left out: a case is a step like any
+					// other, so what stands inside it is not a child of the choice
+					var chain []*schema.X
+					for x := b; x.Parent != nil; x = x.Parent {
+						chain = append([]*schema.X{x}, chain...)
+					}
+					for ci := 0; ci+1 < len(chain); ci++ {
+						cx := chain[ci]
+						if cx.Kind != "case" || cx.Implicit || cx.Parent == nil || cx.Parent.Children[chain[ci+1].Name] != nil {
+							continue
+						}
+						short := ""
+						for j, x := range chain {
+							if j != ci {
+								short += "/" + pfx + ":" + x.Name
+							}
+						}
+						c.Lookups++
+						c.CaseDrops++
+						if got := ea.Find(short); got != nil {
+							c.out = append(c.out, Disc{Class: "find-nonexistent", Detail: fmt.Sprintf("Find(%s) from %s returned %s although the case %s was left out of the path", short, a.Path(), got.Path(), cx.Name), Facts: map[string]any{"bogus_step_under": "case-left-out"}})
+						}
+						break
 					}
 					// a step that names no child, undone by ".." right after it: the rest of
 					// the path is the true one, yet the lookup has already failed
@@ -1090,6 +1115,7 @@ func Run(j *job.Job, s *job.Sink) {
 		}
 		s.Count("find_lookups", int64(c.Lookups))
 		s.Count("find_lookups_on_held_trees", int64(c.Held))
+		s.Count("find_lookups_with_a_case_left_out", int64(c.CaseDrops))
 		reported := map[string]bool{}
 		for k := range c.out {
 			d := &c.out[k]
